@@ -219,7 +219,7 @@ static int transform (Form * F, int t)
 }
 
 /* ------------------------------------------------------------ family */
-static int depth2, maxcat, o_algo = DUAL_SIMPLEX;
+static int depth2, maxcat, o_algo = DUAL_SIMPLEX, o_partial;
 static void meta_init (void)
 {
 	const char *fam = opt_str ("fam", "S0q");
@@ -229,6 +229,7 @@ static void meta_init (void)
 	depth2 = (int) opt_int ("depth", 1) >= 2;
 	maxcat = (int) opt_int ("ncat", NCAT);
 	o_algo = !strcmp (opt_str ("algo", "dual"), "primal") ? PRIMAL_SIMPLEX : DUAL_SIMPLEX;
+	o_partial = (int) opt_int ("partial", 0);      /* multiple partial pricing (candidate buckets of 100): matters on the catalogue's wide LPs */
 	qsx_start ();
 }
 static long meta_count (void) { return (use_cat ? (long) maxcat : use_T ? tfam_count () : lpfam_count ()) * (T__COUNT + 1); }
@@ -239,7 +240,9 @@ static void solve_form (const RefLP * L, Ans * A)
 	mpq_QSprob p = qsx_build (L, ROUTE_LOAD, 0);
 	A->rval = -99; A->status = 0;
 	if (!p) return;
-	A->rval = QSexact_solver (p, NULL, NULL, NULL, o_algo, &A->status);
+	if (o_partial) { mpq_QSset_param (p, QS_PARAM_PRIMAL_PRICING, QS_PRICE_PMULTPARTIAL); mpq_QSset_param (p, QS_PARAM_DUAL_PRICING, QS_PRICE_DMULTPARTIAL); }
+	if (o_partial == 2) { int st = 0; A->rval = o_algo == PRIMAL_SIMPLEX ? mpq_QSopt_primal (p, &st) : mpq_QSopt_dual (p, &st); A->status = st; }
+	else A->rval = QSexact_solver (p, NULL, NULL, NULL, o_algo, &A->status);
 	if (!A->rval && A->status == QS_LP_OPTIMAL) { if (mpq_QSget_objval (p, &A->val)) A->rval = -98; }
 	STAT ("executions");
 	{ char nm[48]; snprintf (nm, sizeof nm, "status_%s", A->rval ? "ERR" : status_name (A->status)); stat_dyn (nm, ""); }
